@@ -142,6 +142,11 @@ class JsonDocument(HierDictDocument):
             raise ValidationError(value)
         if value in (True, False):
             return int(value)
+        if isinstance(value, float) and issubclass(cls, Integer):
+            # 7.0 is 7, 7.5 is not an integer
+            if not value.is_integer():
+                raise ValidationError(value)
+            return int(value)
         return value
 
     def _ret_bool(self, cls, value):
